@@ -4,6 +4,8 @@ serializer instances versus FRESH instances, call by call (JSON stdin -> stdout)
 Input  {"static": [class descriptions], "dynamic": [class descriptions],
         "ops": [operation descriptions], "seqs": [[step, ...], ...]}
   step = {"op": i} | {"env": "define", "cid": c, "bump": bool} | {"env": "import"}
+       | {"env": "preload", "n": k}   k helper modules enter sys.modules (an "old plugin")
+       | {"env": "unload", "n": k}    the k most recently preloaded helper modules leave sys.modules again
 Output {"ambient": [...], "order": [...], "modules0": n,
         "runs": [[{"shared": r, "fresh": r, "ts": trace, "tf": trace, "mod": [before, after]} ...] ...]}
 
@@ -480,18 +482,35 @@ def main():
     runs = []
     fresh = None
     g0 = global_state()
+    serial = 0
     for seq in inp["seqs"]:
         shared = Instances()
         fp0 = shared_fingerprint(shared)
         made, mods = [], []
+        pre = []
         out = []
         for step in seq:
             before = len(sys.modules)
             if "env" in step:
-                if step["env"] == "define":
+                if step["env"] == "preload":
+                    for _ in range(step["n"]):
+                        serial += 1
+                        name = f"c14pre_{serial}"
+                        sys.modules[name] = types.ModuleType(name)
+                        pre.append(name)
+                        mods.append(name)
+                elif step["env"] == "unload":
+                    if step["n"] > len(pre):
+                        raise SystemExit("unload of more helper modules than were preloaded")
+                    for _ in range(step["n"]):
+                        name = pre.pop()
+                        mods.remove(name)
+                        del sys.modules[name]
+                elif step["env"] == "define":
                     d = dyn[step["cid"]]
                     if step["bump"]:
-                        name = f"c14dyn_{len(mods)}_{d['cid']}"
+                        serial += 1
+                        name = f"c14dyn_{serial}_{d['cid']}"
                         mod = new_module(name)
                         sys.modules[name] = mod
                         mods.append(name)
@@ -500,7 +519,8 @@ def main():
                     define(d, mod, names)
                     made.append((d, mod))
                 else:
-                    name = f"c14dummy_{len(mods)}"
+                    serial += 1
+                    name = f"c14dummy_{serial}"
                     sys.modules[name] = types.ModuleType(name)
                     mods.append(name)
                 out.append({"mod": [before, len(sys.modules)]})
